@@ -21,6 +21,7 @@ from ..orch import h
 from .c02 import filter_features
 
 ID = "C05"
+TECHNIQUE = 'runtime monitoring - interval logic over the boundary log: per (event, subscription generation) obligations (must push / must not push / at most once) decided from command and frame positions under randomised schedules, send delays and validator-thread delays; live-vs-stored agreement re-queried at quiescence'
 LEVEL = "exploration"
 RULE = (
     "cases = (backend, 2-6 virtual connections x 1-3 subscriptions with filters from the dense C02 universe, a script "
